@@ -109,6 +109,12 @@ def deltaK (ds di dp : Vec3 α) (ns ni np ws wi wp : α) (pp : Poling α) : Outc
   (kEff pp).map fun ke =>
     Vec3.sub (Vec3.sub (Vec3.sub kp ks) ki) ⟨ke * (0.0 : α), ke * (0.0 : α), ke * (1.0 : α)⟩
 
+/-- `delta_k` on three beams given by their ANGLES (`phi()`, `theta_internal()`): the direction each wave vector lies
+along is `direction_from_polar` of the beam's own angles — the invariant every constructor and every setter of `Beam`
+(`new`, `set_phi`, `set_theta_internal`, `set_theta_external`, `set_angles`) has to maintain for its cached direction. -/
+def deltaKAngles (phs ths phi thi php thp ns ni np ws wi wp : α) (pp : Poling α) : Outcome (Vec3 α) :=
+  deltaK (dirFromPolar phs ths) (dirFromPolar phi thi) (dirFromPolar php thp) ns ni np ws wi wp pp
+
 /-- inputs of `IdlerBeam::try_new_optimum` (indices from the lower layer) -/
 structure IdlerIn (α : Type) where
   pm : PMType
